@@ -15,7 +15,9 @@ import (
 var hostileKeys = []string{"a", "b", "c", "", "0", "1", "-1", "$x", "$", "a.b", "a..b", ".", "_id", "$set", "$each", "$[", "$[]", "$[x]", "00", "9999999999999999999999"}
 
 // HostilePaths are dotted paths with odd shapes.
-var HostilePaths = []string{"a", "a.b", "a.0", "a.-1", "a..b", ".a", "a.", "", ".", "$", "a.$", "a.$[]", "a.$[x]", "a.$[x].b.$[y]", "a.$[", "$[].a", "a.00", "a.9999999999999999999999", "_id", "_id.x", "a.b.c.d.e.f", "0", "a.b.0.c", "b.1.a"}
+var HostilePaths = []string{"a", "a.b", "a.0", "a.-1", "a..b", ".a", "a.", "", ".", "$", "a.$", "a.$[]", "a.$[x]", "a.$[x].b.$[y]", "a.$[", "$[].a", "a.00", "a.9999999999999999999999", "_id", "_id.x", "a.b.c.d.e.f", "0", "a.b.0.c", "b.1.a",
+	// array indexes far beyond the end (never a few hundred thousand: padding that far is legal and only slow)
+	"a.9223372036854775807", "a.4294967296", "a.2147483648", "a.1500099", "a.9223372036854775807.b", "a.0.4294967295", "b.18446744073709551615"}
 
 var hostileScalars = []interface{}{
 	math.NaN(), math.Inf(1), math.Inf(-1), math.Copysign(0, -1), math.MaxFloat64, -math.MaxFloat64, math.SmallestNonzeroFloat64, 0.5, -0.25, 1e-300, 1e19, -1e19, math.Pow(2, 63), -math.Pow(2, 63),
